@@ -17,7 +17,7 @@ import (
 
 func init() {
 	register(&propDef{
-		id: "C28",
+		id:      "C28",
 		explain: "Structural necessary condition of 'Args behaves as an insertion-ordered multimap': every function that moves elements inside a []argsKV (element stores fed by element loads, or copy() within one slice) is order-preserving by construction - copy shifts left by a constant, and no element is loaded from an index derived from the slice length (the tail) and stored at an index that is not - and every shortening of Args.args is [:0], the result of such a routine, or happens inside one; (coupling) every function of the Args machinery that assigns an entry's value also assigns its no-value flag on every path. Not decided: agreement of Peek/Set/Add with a reference model over operation sequences, parsing and encoding.",
 		run: func(p *Prog, r *Report) {
 			runKVOrder(p, r, "C28")
@@ -25,7 +25,7 @@ func init() {
 		},
 	})
 	register(&propDef{
-		id: "C29",
+		id:      "C29",
 		explain: "Structural necessary conditions of 'headers behave as an ordered case-insensitive multimap': (E11) as for C28, for header.h / cookies storage of both header types; (sibling) the special header names handled by the set / peek / peekAll / del / serialise paths of each header type are the same set, so a name stored in a dedicated field by one operation is found by the others; (E7) CopyTo writes every field of the destination header from the same field of the source; (accumulate) the generic Set-Cookie paths of the response header (setter switch and parser) append to the cookie list and never replace by key. Not decided: model agreement over operation sequences, parse/serialise round trip.",
 		run: func(p *Prog, r *Report) {
 			runKVOrder(p, r, "C29")
